@@ -6,9 +6,9 @@ from engine.core import Undecided
 class H:
     """One Kani harness: name, obligation text, complete (counted as proved) or bounded (with its bound)."""
 
-    def __init__(self, name, what, complete=False, bound=None, tiers=("quick", "thorough"), timeout=900, expect_covers=None):
+    def __init__(self, name, what, complete=False, bound=None, tiers=("quick", "thorough"), timeout=900, covers_optional=False):
         self.name, self.what, self.complete, self.bound, self.tiers, self.timeout = name, what, complete, bound, tiers, timeout
-        self.expect_covers = expect_covers
+        self.covers_optional = covers_optional
 
 
 def run_harnesses(rep, scratch, crate, harnesses, jobs=8, need_stubs=True, mem_gb=24, batch=False):
@@ -33,7 +33,7 @@ def run_harnesses(rep, scratch, crate, harnesses, jobs=8, need_stubs=True, mem_g
         if st == "ok":
             if need_stubs and not r.get("stubs"):
                 rep.undecided.append("%s: expected `- Stub:` lines missing (vacuity guard 4)" % h.name)
-            if r.get("covers_total") and r.get("covers_sat") != r.get("covers_total"):
+            if r.get("covers_total") and r.get("covers_sat") != r.get("covers_total") and not h.covers_optional:
                 rep.undecided.append("%s: only %s of %s cover statements reached (vacuity guard 2)" % (h.name, r.get("covers_sat"), r.get("covers_total")))
             rec = rep.obligation(name, "kani 0.68 / cbmc 6.11 (cadical)", True, seconds=secs, detail=h.what, complete=h.complete, bound=h.bound)
             rec["checks"] = r.get("checks_total")
